@@ -75,34 +75,34 @@ type pathState struct {
 }
 
 type machine struct {
-	eng      *engine
-	tt       *termTable
-	sol      *solver
-	globals  map[*ssa.Global]*value
-	inited   map[*ssa.Package]bool
-	p        *pathState
-	steps    int64
-	maxSteps int64
-	unwind   int
-	depth    int
-	inInit   bool
-	hashMemo []hashEntry
-	sigs     []*sigRec
-	keyObjs  map[int]*value
-	fnCache  map[*ssa.Function]intrinsic
-	ctr      int
-	trace    bool
-	funcsHit map[string]bool
-	timeout  int
+	eng        *engine
+	tt         *termTable
+	sol        *solver
+	globals    map[*ssa.Global]*value
+	inited     map[*ssa.Package]bool
+	p          *pathState
+	steps      int64
+	maxSteps   int64
+	unwind     int
+	depth      int
+	inInit     bool
+	hashMemo   []hashEntry
+	sigs       []*sigRec
+	keyObjs    map[int]*value
+	fnCache    map[*ssa.Function]intrinsic
+	ctr        int
+	trace      bool
+	funcsHit   map[string]bool
+	timeout    int
 	crashDepth int
-	noIfConv bool
-	merges   int
-	onceDone map[string]bool
-	mapRot   int
-	mapRotOn bool
-	solFP    *solver
-	merging  int
-	curPos   string
+	noIfConv   bool
+	merges     int
+	onceDone   map[string]bool
+	mapRot     int
+	mapRotOn   bool
+	solFP      *solver
+	merging    int
+	curPos     string
 	testErrors []string
 }
 
